@@ -4,7 +4,7 @@
    range_for_length, is_resource_modified, the processable / skipped guards, the method tuple and
    the status codes) come from C11/Gen.v, regenerated from /repo on every run. *)
 From Coq Require Import ZArith.
-From Wz Require Import lib.Bytes C11.Base C11.Gen.
+From Wz Require Import lib.Bytes C11.GenArith C11.Base C11.Gen.
 Open Scope N_scope.
 
 (* f"{x}" of an int-or-None *)
@@ -96,44 +96,67 @@ Definition full_body (b : body_src) : list bytes :=
   match b with BList c => c | BFile d bs => blocks bs d end.
 
 (* ------------------------------------------------------------------ wsgi._RangeWrapper *)
+(* The statement structure of __init__ / _next_chunk / _first_iteration / _next / __next__ is pinned by the
+   translator; every comparison, offset and slice bound below is a regenerated rw_* function of C11/GenArith.v
+   (over Z, as in Python), reached through the wrappers of this block. *)
 Record rw := { rw_it : list bytes; rw_rl : nat; rw_end : bool }.
+
+(* Python slices chunk[k:] and chunk[:k] for any integer k *)
+Definition py_from (c : bytes) (k : Z) : bytes :=
+  if (k <? 0)%Z then skipn (Z.to_nat (Z.max 0 (Z.of_nat (length c) + k))) c else skipn (Z.to_nat k) c.
+Definition py_to (c : bytes) (k : Z) : bytes :=
+  if (k <? 0)%Z then firstn (Z.to_nat (Z.max 0 (Z.of_nat (length c) + k))) c else firstn (Z.to_nat k) c.
+
+Definition adv (rl : nat) (c : bytes) : nat := rl + Z.to_nat (rw_advance (Z.of_nat (length c))).
+Definition skip_more (rl start : nat) : bool := rw_skip_more (Z.of_nat rl) (Z.of_nat start).
+Definition first_cut (c : bytes) (start rl : nat) : bytes := py_from c (rw_first_index (Z.of_nat start) (Z.of_nat rl)).
+Definition is_first (rl : nat) : bool := rw_is_first (Z.of_nat rl).
+Definition range_done (rl end_byte : nat) : bool := rw_range_done true (Z.of_nat rl) (Z.of_nat end_byte).
+Definition last_cut (c : bytes) (end_byte crl : nat) : bytes := py_to c (rw_cut_index (Z.of_nat end_byte) (Z.of_nat crl)).
+Definition crl_seek (rl : nat) : nat := Z.to_nat (rw_crl_seek (Z.of_nat rl)).
+Definition crl_skip (start : nat) : nat := Z.to_nat (rw_crl_skip (Z.of_nat start)).
+Definition crl_plain (rl : nat) : nat := Z.to_nat (rw_crl_plain (Z.of_nat rl)).
+Definition seek_pos (start : nat) : nat := Z.to_nat (rw_seek_pos (Z.of_nat start)).
+Definition end_of (start len : nat) : nat := Z.to_nat (rw_end_byte (Z.of_nat start) (Z.of_nat len)).
+Definition initial_rl : nat := Z.to_nat rw_initial_read_length.
 
 (* _next_chunk: None = StopIteration (end_reached set) *)
 Definition next_chunk (s : rw) : option bytes * rw :=
   match rw_it s with
   | [] => (None, {| rw_it := []; rw_rl := rw_rl s; rw_end := true |})
-  | c :: r => (Some c, {| rw_it := r; rw_rl := rw_rl s + length c; rw_end := rw_end s |})
+  | c :: r => (Some c, {| rw_it := r; rw_rl := adv (rw_rl s) c; rw_end := rw_end s |})
   end.
 
 (* the while loop of _first_iteration without seek: inl = loop left, inr = StopIteration *)
 Fixpoint first_skip (it : list bytes) (rl start : nat) (chunk : option bytes) : (option bytes * rw) + rw :=
-  if Nat.ltb start rl then inl (chunk, {| rw_it := it; rw_rl := rl; rw_end := false |})
-  else match it with
-       | [] => inr {| rw_it := []; rw_rl := rl; rw_end := true |}
-       | c :: r => first_skip r (rl + length c) start (Some c)
-       end.
-
-(* chunk[k:] for k = start_byte - read_length < 0 : the last -k bytes *)
-Definition py_tail (c : bytes) (n : nat) : bytes := skipn (length c - n) c.
+  if skip_more rl start then
+    match it with
+    | [] => inr {| rw_it := []; rw_rl := rl; rw_end := true |}
+    | c :: r => first_skip r (adv rl c) start (Some c)
+    end
+  else inl (chunk, {| rw_it := it; rw_rl := rl; rw_end := false |}).
 
 Section Wrapper.
 Variable seekable : bool.
-Variable seek_it : list bytes.     (* what the iterable yields after seek(start_byte); tell() = start_byte *)
+Variable seek : nat -> list bytes.  (* what the iterable yields after seek(p); tell() = p afterwards *)
 Variable start_byte : nat.
-Variable end_byte : nat.           (* start_byte + byte_range *)
+Variable end_byte : nat.
 
 (* _next: (None, s) = StopIteration *)
 Definition next_ (s : rw) : option bytes * rw :=
   if rw_end s then (None, s)
   else
     let first :=
-      if Nat.eqb (rw_rl s) 0 then
-        if seekable then inl (None, start_byte, {| rw_it := seek_it; rw_rl := start_byte; rw_end := rw_end s |})
+      if is_first (rw_rl s) then
+        if seekable then
+          let pos := seek_pos start_byte in
+          let s1 := {| rw_it := seek pos; rw_rl := pos; rw_end := rw_end s |} in
+          inl (None, crl_seek (rw_rl s1), s1)
         else match first_skip (rw_it s) (rw_rl s) start_byte None with
-             | inl (ch, s') => inl (option_map (fun c => py_tail c (rw_rl s' - start_byte)) ch, start_byte, s')
+             | inl (ch, s') => inl (option_map (fun c => first_cut c start_byte (rw_rl s')) ch, crl_skip start_byte, s')
              | inr s' => inr s'
              end
-      else inl (None, rw_rl s, s) in
+      else inl (None, crl_plain (rw_rl s), s) in
     match first with
     | inr s' => (None, s')
     | inl (chunk, crl, s1) =>
@@ -141,8 +164,8 @@ Definition next_ (s : rw) : option bytes * rw :=
       match chunk' with
       | None => (None, s2)
       | Some c =>
-        if Nat.leb end_byte (rw_rl s2)
-        then (Some (firstn (end_byte - crl) c), {| rw_it := rw_it s2; rw_rl := rw_rl s2; rw_end := true |})
+        if range_done (rw_rl s2) end_byte
+        then (Some (last_cut c end_byte crl), {| rw_it := rw_it s2; rw_rl := rw_rl s2; rw_end := true |})
         else (Some c, s2)
       end
     end.
@@ -155,9 +178,9 @@ Fixpoint drive (fuel : nat) (s : rw) : res (list bytes) :=
     match next_ s with
     | (None, _) => Ok []
     | (Some c, s') =>
-      if nonempty c then r <- drive f s' ;; Ok (c :: r)
-      else if rw_end s' then Ok []
-      else drive f s'                 (* while not chunk and not self.end_reached *)
+      if rw_retry (nonempty c) (rw_end s') then drive f s'      (* while not chunk and not self.end_reached *)
+      else if nonempty c then r <- drive f s' ;; Ok (c :: r)
+      else Ok []
     end
   end.
 End Wrapper.
@@ -165,11 +188,13 @@ End Wrapper.
 Definition range_wrapper (b : body_src) (start len : nat) : res (list bytes) :=
   match b with
   | BList chunks =>
-    drive false [] start (start + len) (S (S (length chunks))) {| rw_it := chunks; rw_rl := 0; rw_end := false |}
+    drive false (fun _ => []) start (end_of start len) (S (S (length chunks)))
+      {| rw_it := chunks; rw_rl := initial_rl; rw_end := false |}
   | BFile d bs =>
     let it := blocks bs d in
-    let sk := blocks bs (skipn start d) in
-    drive true sk start (start + len) (S (S (length it + length sk))) {| rw_it := it; rw_rl := 0; rw_end := false |}
+    let sk := fun p => blocks bs (skipn p d) in
+    drive true sk start (end_of start len) (S (S (length it + length (sk (seek_pos start)))))
+      {| rw_it := it; rw_rl := initial_rl; rw_end := false |}
   end.
 
 (* ------------------------------------------------------------------ the response as a whole *)
@@ -214,3 +239,16 @@ Definition respond (env : environ) (r : resp_in) (accept_ranges : accept) (compl
     Ok (WResp status None cl None (if head || no_body_status status then [] else full_body (i_body r)))
   end.
 End Respond.
+
+(* ------------------------------------------------------------------ utils.send_file(file, environ, etag=..., last_modified=..., conditional=True)
+   for a file object holding d: Response(wrap_file(environ, file), direct_passthrough=True), content_length = size,
+   then make_conditional(environ, accept_ranges=True, complete_length=size) - the statements are pinned by the
+   translator, the block size is wrap_file's regenerated default.  etag / last_modified are the header texts
+   send_file put on the response. *)
+Definition send_file_respond (parse_date : str -> option Z) (env : environ) (etag last_modified : option str)
+    (d : bytes) : res wsgi_out :=
+  let size := Z.of_nat (length d) in
+  respond parse_date env
+    {| i_status := 200; i_etag := etag; i_last_modified := last_modified; i_content_length := Some (dec_Z size);
+       i_passthrough := true; i_body := BFile d (N.to_nat file_wrapper_buffer_size) |}
+    ATrue (Some size).
